@@ -575,6 +575,9 @@ func applyDirs(hc *harnessCfg, dirs map[string]string, tier string) {
 	if v, ok := dirs["solver"]; ok {
 		hc.solver = v
 	}
+	if _, ok := dirs["recursion"]; ok {
+		hc.recursionIsViolation = true
+	}
 	if _, ok := dirs["concurrent"]; ok {
 		hc.concurrent = true
 	}
